@@ -66,9 +66,11 @@ IStartOK(e) == \A k \in 1..Len(e.segs) : (e.segs[k][5] = 1) = (e.segs[k][6] > 0)
 
 Bnd == [f |-> lf, l |-> ll]
 Emp == ll = 0
-(* DeleteRange classification on bounds (LogOps!DelClass on a log with these bounds) *)
+(* DeleteRange classification on bounds, as the code does it (WAL.DeleteRange).  It is LogOps!DelClass except on an  *)
+(* EMPTY log (first = last = 0) with min = 0: the code takes that for a head truncation, removes the empty tail and   *)
+(* commits + creates a fresh one (invisible at contract level: the log stays empty).                                  *)
 DClass(mn, mx) ==
-  IF mn > mx \/ Emp THEN "noop"
+  IF mn > mx THEN "noop"
   ELSE IF mx < lf \/ mn > ll THEN "noop"
   ELSE IF mn <= lf THEN "head"
   ELSE IF mx >= ll THEN "tail"
@@ -95,7 +97,9 @@ Expected(new) ==
             ELSE [k |-> "OpenRotate", v |-> NoMeta]
   ELSE IF op.k = "store" THEN
        IF ~lk THEN [k |-> "skip", v |-> NoMeta]
-       ELSE IF Emp /\ op.n > 0 /\ StoreLegal(op) /\ op.first # TailOf(meta.segs).base /\ ncommit = 0
+       \* the base-index reset comes BEFORE the batch is validated (StoreLogs): a batch that is refused afterwards
+       \* (non-consecutive indexes) has already replaced the empty tail - invisible at contract level
+       ELSE IF Emp /\ op.n > 0 /\ op.first # TailOf(meta.segs).base /\ ncommit = 0
        THEN [k |-> "Reset", v |-> ResetResult(meta.segs, meta.next, op.first)]
        ELSE [k |-> "none", v |-> NoMeta]
   ELSE IF op.k = "delete" THEN
